@@ -107,6 +107,11 @@ class ShapeEval:
                 continue
             if isinstance(st, ast.Raise):
                 return (('raise',),)
+            if isinstance(st, ast.FunctionDef):
+                env[st.name] = ('closure', st, env, f)
+                continue
+            if isinstance(st, (ast.Import, ast.ImportFrom)):
+                continue
             if isinstance(st, ast.For) and not st.orelse:
                 seq = self.ev(f, st.iter, env)
                 if not isinstance(seq, (tuple, list)) or (seq and isinstance(seq[0], str) and seq[0] in ARITY):
@@ -199,6 +204,21 @@ class ShapeEval:
                 target = env.get(nm)
                 if isinstance(target, tuple) and target and target[0] == 'class':
                     nm = target[1]
+                if isinstance(target, tuple) and target and target[0] == 'closure':
+                    _, node, cenv, cf = target
+                    names = [a.arg for a in node.args.args]
+                    if len(names) != len(e.args) or e.keywords:
+                        raise Unsupported('arity of ' + nm)
+                    self.depth += 1
+                    if self.depth > 60:
+                        raise Unsupported('recursion too deep')
+                    env2 = dict(cenv)
+                    env2.update(zip(names, [self.ev(f, a, env) for a in e.args]))
+                    r = self.run(cf, node.body, env2)
+                    self.depth -= 1
+                    if r is None:
+                        raise Unsupported(nm + ' returns nothing')
+                    return r[0]
                 if nm in ARITY and nm != 'Parens':
                     args = [self.ev(f, a, env) for a in e.args]
                     if nm == 'Symbol':
